@@ -146,6 +146,7 @@ def gen_src(D_, leaf):
         src["adapter"] = D_.weighted([(0, 5), (1, 1)])
         src["tokenizable"] = D_.chance(4, 5)
         src["inline_array"] = D_.chance(1, 4)
+        src["via"] = D_.weighted([("from_array", 4), ("asarray", 2), ("asanyarray", 1)])
     return src
 
 
@@ -571,7 +572,7 @@ def run_shard(spec, seed):
 
 
 def plan(tier):
-    return progrun.plan_cases(tier, 4000, 160000)
+    return progrun.plan_cases(tier, 8000, 160000)
 
 
 _REQ = ["acc:" + n for n in ACCESSORS] + [
